@@ -235,6 +235,9 @@ func (ex *Exec) query(extra *Term, wantModel bool) (SatResult, map[string]interf
 			r, _ := w.solver.CheckSet(conjs, nil)
 			v = qval{r: r}
 		}
+		if len(w.qcache) > 40000 {
+			w.qcache = map[string]qval{} // bound the cache's memory
+		}
 		w.qcache[key] = v
 	}
 	if v.r != Sat || !wantModel {
